@@ -21,7 +21,7 @@ res = seedtest.run(src, ids)
 dst = os.path.join("/verif/seeded", "%s-%s" % (prop, n))
 os.makedirs(dst, exist_ok=True)
 for f in ("patch.diff", "demo_test.go", "README.md"):
-    if os.path.exists(os.path.join(src, f)):
+    if os.path.exists(os.path.join(src, f)) and os.path.abspath(src) != os.path.abspath(dst):
         shutil.copy(os.path.join(src, f), dst)
 readme = open(os.path.join(src, "README.md")).read() if os.path.exists(os.path.join(src, "README.md")) else ""
 meta = dict(property=prop, source="independent sub-agent given only the property text and a scratch worktree",
